@@ -73,9 +73,15 @@ enum Kind {
     /// `/adpath$removeparam=p,...`: implied types are document, subdocument and xhr; negated
     /// types do not switch on "all network types"; observed through the rewrite, never blocks
     RemoveParam,
+    /// `/adpath$csp=script-src x,...`: document and subdocument requests only; observed through
+    /// the injected policy, never blocks
+    Csp,
+    /// `/adpath$redirect=noop.js,...`: options as for a plain rule; observed through `matched`
+    /// and the presence of the redirect
+    Redirect,
 }
 
-const KINDS: [Kind; 7] = [
+const KINDS: [Kind; 9] = [
     Kind::Plain,
     Kind::HostCaret,
     Kind::Exception,
@@ -83,6 +89,8 @@ const KINDS: [Kind; 7] = [
     Kind::HttpScheme,
     Kind::HttpsScheme,
     Kind::RemoveParam,
+    Kind::Csp,
+    Kind::Redirect,
 ];
 
 #[derive(Clone, Debug, Default)]
@@ -170,6 +178,9 @@ fn reference(kind: Kind, o: &Opts, rq: &ReqDesc) -> bool {
             }
         }
     }
+    if kind == Kind::Csp {
+        return matches!(ty, "document" | "subdocument");
+    }
     if kind == Kind::RemoveParam {
         if ty == "csp" || o.neg.contains(&ty) {
             return false;
@@ -239,6 +250,12 @@ fn spell_rule(r: Option<&mut Rng>, kind: Kind, o: &Opts) -> String {
     if kind == Kind::RemoveParam {
         opts.push("removeparam=p".into());
     }
+    if kind == Kind::Csp {
+        opts.push("csp=script-src x".into());
+    }
+    if kind == Kind::Redirect {
+        opts.push("redirect=noop.js".into());
+    }
     if let Some(r) = rr.as_deref_mut() {
         r.shuffle(&mut opts);
     }
@@ -249,7 +266,7 @@ fn spell_rule(r: Option<&mut Rng>, kind: Kind, o: &Opts) -> String {
         Kind::WsScheme => "|ws://",
         Kind::HttpScheme => "|http://",
         Kind::HttpsScheme => "|https://",
-        Kind::RemoveParam => "/adpath",
+        Kind::RemoveParam | Kind::Csp | Kind::Redirect => "/adpath",
     };
     if opts.is_empty() {
         pat.to_string()
@@ -267,6 +284,8 @@ const SOURCES: &[(&str, bool, Option<&str>)] = &[
     ("https://x.b.co.uk/", true, Some("x.b.co.uk")),
     ("", true, None),
     ("not a url", true, None),
+    // the request host merely ends with this host's text (no label boundary): third-party
+    ("https://ds.net/", true, Some("ds.net")),
 ];
 const SCHEMES: &[&str] = &["http", "https", "ws", "wss", "ftp", "data"];
 
@@ -281,7 +300,10 @@ struct Out {
 /// Evaluate one rule line against the whole request cross product.
 fn check_rule(kind: Kind, o: &Opts, line: &str, sources: &[(&str, bool, Option<&str>)], types: &[&str]) -> Option<Out> {
     let f = NetworkFilter::parse(line, true, Default::default()).ok()?;
-    let e = Engine::from_rules_debug([line], Default::default());
+    let mut e = Engine::from_rules_debug([line], Default::default());
+    if kind == Kind::Redirect {
+        e.use_resources(crate::gen::standard_resources().iter().map(|d| d.to_resource()));
+    }
     // the same single-rule engine after a serialization round trip (removeparam rules do not
     // survive serialization: known finding homed in C08)
     let e2 = if kind == Kind::RemoveParam {
@@ -289,6 +311,9 @@ fn check_rule(kind: Kind, o: &Opts, line: &str, sources: &[(&str, bool, Option<&
     } else {
         let mut x = Engine::default();
         x.deserialize(&e.serialize_raw().ok()?).ok()?;
+        if kind == Kind::Redirect {
+            x.use_resources(crate::gen::standard_resources().iter().map(|d| d.to_resource()));
+        }
         Some(x)
     };
     let mut rm = RegexManager::default();
@@ -334,7 +359,8 @@ fn check_rule(kind: Kind, o: &Opts, line: &str, sources: &[(&str, bool, Option<&
                     ));
                 }
                 // per-rule matcher (does not look at is_supported): only judged on supported schemes
-                if supported && got_rule != exp {
+                // (csp rules carry all network types; the restriction to documents is made by the csp query)
+                if supported && got_rule != exp && kind != Kind::Csp {
                     out.viol.push((
                         format!("C03:rule-options:{:?}:{}", kind, if got_rule { "applies-but-should-not" } else { "should-apply-but-does-not" }),
                         json!({"rule": line, "url": url, "source": src, "type": rt, "rule_matches": got_rule, "reference": exp}),
@@ -350,7 +376,32 @@ fn check_rule(kind: Kind, o: &Opts, line: &str, sources: &[(&str, bool, Option<&
                     }
                 }
                 // engine level: unsupported schemes never match; blocking kinds: matched == exp
-                if kind == Kind::RemoveParam {
+                if kind == Kind::Csp {
+                    let injected = e.get_csp_directives(&rq).is_some();
+                    if injected != exp || b.matched {
+                        out.viol.push((
+                            format!("C03:engine-options:Csp:{}", if b.matched { "blocks" } else if injected { "injects-but-should-not" } else { "should-inject-but-does-not" }),
+                            json!({"rule": line, "url": url, "source": src, "type": rt, "engine_csp": e.get_csp_directives(&rq), "reference_applies": exp}),
+                        ));
+                    }
+                    if let Some(e2) = &e2 {
+                        if e2.get_csp_directives(&rq).is_some() != injected {
+                            out.viol.push(("C03:options-change-across-serialization".into(), json!({"rule": line, "url": url, "source": src, "type": rt, "what": "csp"})));
+                        }
+                    }
+                } else if kind == Kind::Redirect {
+                    if b.matched != exp || b.redirect.is_some() != exp {
+                        out.viol.push((
+                            format!("C03:engine-options:Redirect:{}", if b.matched && !exp { "blocks-but-should-not" } else if !b.matched && exp { "should-block-but-does-not" } else { "redirect-presence-differs-from-match" }),
+                            json!({"rule": line, "url": url, "source": src, "type": rt, "engine_matched": b.matched, "engine_redirect": b.redirect, "reference_applies": exp}),
+                        ));
+                    }
+                    if let Some(e2) = &e2 {
+                        if e2.check_network_request(&rq).redirect.is_some() != b.redirect.is_some() {
+                            out.viol.push(("C03:options-change-across-serialization".into(), json!({"rule": line, "url": url, "source": src, "type": rt, "what": "redirect"})));
+                        }
+                    }
+                } else if kind == Kind::RemoveParam {
                     let rewritten = b.rewritten_url.is_some();
                     if rewritten != exp || b.matched {
                         out.viol.push((
@@ -538,7 +589,10 @@ fn exhaustive(ctx: &mut Ctx) {
                 for party in ["", "3p", "~3p", "1p", "~1p"] {
                     for important in [false, true] {
                         idx += 1;
-                        if (kind == Kind::Exception || kind == Kind::RemoveParam) && important {
+                        if (kind == Kind::Exception || kind == Kind::RemoveParam || kind == Kind::Csp) && important {
+                            continue;
+                        }
+                        if kind == Kind::Csp && (!pos.is_empty() || !neg.is_empty() || doc) {
                             continue;
                         }
                         if ctx.stop() {
@@ -566,7 +620,7 @@ fn exhaustive(ctx: &mut Ctx) {
     }
     if complete && ctx.only_case.is_none() {
         ctx.report.exhaustive.push(format!(
-            "option sets with <= {} type atoms x document x party x important x 7 rule kinds x 22 request type strings x 7 initiators x 6 schemes (this shard's share)",
+            "option sets with <= {} type atoms x document x party x important x 9 rule kinds x 22 request type strings x 8 initiators x 6 schemes (this shard's share)",
             "2"
         ));
     }
@@ -631,7 +685,12 @@ fn random_domains(ctx: &mut Ctx) {
             }
             o.doc = r.chance(1, 6);
             o.party = r.ps(&["", "", "3p", "~3p", "1p", "~1p", "third-party", "first-party"]);
-            o.important = kind != Kind::Exception && kind != Kind::RemoveParam && r.chance(1, 5);
+            o.important = kind != Kind::Exception && kind != Kind::RemoveParam && kind != Kind::Csp && r.chance(1, 5);
+            if kind == Kind::Csp {
+                o.pos.clear();
+                o.neg.clear();
+                o.doc = false;
+            }
             line = spell_rule(Some(&mut r), kind, &o);
             let types: Vec<&str> = (0..5).map(|_| r.ps(REQ_TYPES)).collect();
             check_rule(kind, &o, &line, SOURCES, &types)
